@@ -85,6 +85,19 @@ class Run:
     def note(self, k, v):
         self.notes[k] = v
 
+    def stage(self, name):
+        """wall time per stage of a check, recorded in the evidence notes (stage_wall_s)"""
+        run = self
+
+        class _S:
+            def __enter__(self_):
+                self_.t = time.time()
+
+            def __exit__(self_, *a):
+                run.notes.setdefault('stage_wall_s', {})[name] = round(time.time() - self_.t, 1)
+                return False
+        return _S()
+
     def drift_note(self, msg):
         if msg not in self.drift:
             self.drift.append(msg)
